@@ -114,6 +114,14 @@ def runOpGrammar (op : String) (args : List String) : String :=
         | .ok f => " # ".intercalate [encLines f.gram, encLines f.lex, encLines (sortLines f.start), encLines f.oc, encLines f.ocU]
         | .error e => encErr e)
     | _, _ => bad
+  | "rcg_rewrite", [gl, ll] =>
+    -- `treetools grammar G DEST treebank --src-format rcg --dest-format rcg`: the grammar file as input yields that grammar
+    match decLines gl, decLines ll with
+    | some gl, some ll => (match readRcg gl ll with
+        | some (g, l) => let (a, b) := writeRcg false g l
+                         encLines a ++ " # " ++ (match b with | some b => encLines b | none => "none")
+        | none => "ERR:ValueError")
+    | _, _ => bad
   | "read_rcg", [gl, ll] =>
     match decLines gl, decLines ll with
     | some gl, some ll => (match readRcg gl ll with
